@@ -656,7 +656,7 @@ def main(tier):
     rep = Report("C17", tier, "exploration")
     quick = tier == "quick"
     variant = "ossl-asan"
-    deadline = time.time() + (175 if quick else 2400)
+    deadline = time.time() + (600 if quick else 2400)
     ex = Explorer(C17(), variant=variant)
     cnt, samples, timed_out = {}, [], False
     try:
